@@ -12,8 +12,8 @@ Definition pool45 : list meta := map (fun i => meta45 (N.of_nat i)) (seq 0 45).
 
 Definition nov : meta -> bool := fun _ => false.
 Definition in_set (s : list N) (m : meta) : bool := existsb (N.eqb (m_cs m)) s.
-Definition cur_code (o : option N) : N := match o with None => 0 | Some c => c + 1 end.
-Definition dyn_tbl (allow cs : list N) (m : meta) (cur : option N) : bool :=
+Definition cur_code (o : list meta) : N := match o with [] => 0 | s :: _ => m_cs s + 1 end.
+Definition dyn_tbl (allow cs : list N) (m : meta) (cur : list meta) : bool :=
   existsb (N.eqb (cur_code cur)) allow || in_set cs m.
 
 (** one case: per-operation observations, per-operation `bare` flags, final bitmap *)
